@@ -26,16 +26,23 @@ func (ia *Intervals) dy(t *Term, memo map[uint64]*dyadic) *dyadic {
 	}
 	d := ia.dy1(t, memo)
 	if d != nil {
-		// |value| * 2^s < 2^53 for every value the term can take
-		iv := ia.Of(t)
+		// |n| < 2^52 for every value the numerator can take (so the value n/2^s is a float64 and the
+		// 64-bit integer arithmetic on n cannot wrap)
+		iv := ia.Of(d.n)
 		if !iv.OK || d.s > 40 {
 			d = nil
-		} else if m := math.Max(math.Abs(iv.Lo), math.Abs(iv.Hi)); !(math.Ldexp(m, d.s) < dyLim/2) {
+		} else if m := math.Max(math.Abs(iv.Lo), math.Abs(iv.Hi)); !(m < dyLim/2) {
 			d = nil
 		}
 	}
 	memo[t.ID] = d
 	return d
+}
+
+// smallNum: the (aligned) numerator stays below 2^52 in magnitude.
+func (ia *Intervals) smallNum(n *Term) bool {
+	iv := ia.Of(n)
+	return iv.OK && math.Max(math.Abs(iv.Lo), math.Abs(iv.Hi)) < dyLim/2
 }
 
 func shl(n *Term, k int) *Term {
@@ -106,11 +113,8 @@ func (ia *Intervals) dy1(t *Term, memo map[uint64]*dyadic) *dyadic {
 		x, y, s := ia.align(a, b)
 		// the aligned operands must stay below 2^53 as well (checked through their own
 		// intervals at the larger scale)
-		for _, o := range []*Term{t.A[0], t.A[1]} {
-			iv := ia.Of(o)
-			if !iv.OK || !(math.Ldexp(math.Max(math.Abs(iv.Lo), math.Abs(iv.Hi)), s) < dyLim/2) {
-				return nil
-			}
+		if !ia.smallNum(x) || !ia.smallNum(y) {
+			return nil
 		}
 		switch t.Op {
 		case OFAdd:
@@ -151,18 +155,59 @@ func (ia *Intervals) dy1(t *Term, memo map[uint64]*dyadic) *dyadic {
 		}
 		return &dyadic{shl(n, -(a.s + j)), 0}
 	case OIte:
+		c := ia.exactCond(t.A[0])
+		if c == nil {
+			return nil
+		}
+		if c.IsConst() {
+			if c.IsTrue() {
+				return ia.dy(t.A[1], memo)
+			}
+			return ia.dy(t.A[2], memo)
+		}
 		a, b := ia.dy(t.A[1], memo), ia.dy(t.A[2], memo)
 		if a == nil || b == nil {
 			return nil
 		}
 		x, y, s := ia.align(a, b)
-		for _, o := range []*Term{t.A[1], t.A[2]} {
-			iv := ia.Of(o)
-			if !iv.OK || !(math.Ldexp(math.Max(math.Abs(iv.Lo), math.Abs(iv.Hi)), s) < dyLim/2) {
-				return nil
+		_ = s
+		if !ia.smallNum(x) || !ia.smallNum(y) {
+			return nil
+		}
+		return &dyadic{Ite(c, x, y), s}
+	}
+	return nil
+}
+
+// exactCond rewrites the float comparisons inside a Boolean term (the conditions of math.Max/Min and of
+// merged branches); nil when one of them is not an exact dyadic comparison.
+func (ia *Intervals) exactCond(c *Term) *Term {
+	if !c.HasFP() {
+		return c
+	}
+	switch c.Op {
+	case OFLt, OFLe, OFEq, OFIsNaN, OFIsInf:
+		return ia.ExactFP(c)
+	case OBNot:
+		if x := ia.exactCond(c.A[0]); x != nil {
+			return Not(x)
+		}
+	case OBAnd, OBOr:
+		x, y := ia.exactCond(c.A[0]), ia.exactCond(c.A[1])
+		if x == nil || y == nil {
+			return nil
+		}
+		if c.Op == OBAnd {
+			return And(x, y)
+		}
+		return Or(x, y)
+	case OIte:
+		if c.W == Bool {
+			k, x, y := ia.exactCond(c.A[0]), ia.exactCond(c.A[1]), ia.exactCond(c.A[2])
+			if k != nil && x != nil && y != nil {
+				return Ite(k, x, y)
 			}
 		}
-		return &dyadic{Ite(t.A[0], x, y), s}
 	}
 	return nil
 }
@@ -175,15 +220,20 @@ func (ia *Intervals) ExactFP(root *Term) *Term {
 	switch root.Op {
 	case OFLt, OFLe, OFEq:
 		a, b := ia.dy(root.A[0], memo), ia.dy(root.A[1], memo)
+		if (a == nil) != (b == nil) {
+			// an exact dyadic value n/2^s against an arbitrary finite constant c: compare n with c*2^s,
+			// rounded to the integer on the correct side (n is an integer, the scaling by 2^s is exact)
+			if q := ia.cmpConst(root, a, b); q != nil {
+				return q
+			}
+		}
 		if a == nil || b == nil {
 			return nil
 		}
 		x, y, s := ia.align(a, b)
-		for _, o := range []*Term{root.A[0], root.A[1]} {
-			iv := ia.Of(o)
-			if !iv.OK || !(math.Ldexp(math.Max(math.Abs(iv.Lo), math.Abs(iv.Hi)), s) < dyLim/2) {
-				return nil
-			}
+		_ = s
+		if !ia.smallNum(x) || !ia.smallNum(y) {
+			return nil
 		}
 		switch root.Op {
 		case OFLt:
@@ -229,4 +279,46 @@ func (ia *Intervals) ExactFP(root *Term) *Term {
 		return q
 	}
 	return nil
+}
+
+// cmpConst handles root = cmp(x, c) or cmp(c, x) where exactly one side (da or db non-nil) is an exact
+// dyadic computation and the other a finite constant.
+func (ia *Intervals) cmpConst(root *Term, da, db *dyadic) *Term {
+	d, c, constRight := da, root.A[1], true
+	if da == nil {
+		d, c, constRight = db, root.A[0], false
+	}
+	if !c.IsConst() {
+		return nil
+	}
+	f := c.Float()
+	if math.IsNaN(f) {
+		return BoolC(false)
+	}
+	if math.IsInf(f, 0) {
+		return nil
+	}
+	v := math.Ldexp(f, d.s) // exact unless it overflows/underflows, excluded by the magnitude test
+	if math.Abs(v) >= dyLim || (v != 0 && math.Abs(v) < 1e-300) {
+		return nil
+	}
+	fl, ce := math.Floor(v), math.Ceil(v)
+	k := func(x float64) *Term { return BVS(int64(x), 64) }
+	switch root.Op {
+	case OFLt:
+		if constRight { // n < v  <=>  n < ceil(v)
+			return Slt(d.n, k(ce))
+		}
+		return Slt(k(fl), d.n) // v < n  <=>  floor(v) < n
+	case OFLe:
+		if constRight { // n <= v  <=>  n <= floor(v)
+			return Sle(d.n, k(fl))
+		}
+		return Sle(k(ce), d.n)
+	default: // OFEq
+		if fl != ce {
+			return BoolC(false)
+		}
+		return Eq(d.n, k(v))
+	}
 }
